@@ -556,7 +556,7 @@ namespace GeographicLib {
       {
         real dummy;
         Lengths(E, sig12, ssig1, csig1, dn1, ssig2, csig2, dn2,
-                cbet1, cbet2, outmask | REDUCEDLENGTH,
+                cbet1, cbet2, outmask | DISTANCE | REDUCEDLENGTH,
                 s12x, m12x, dummy, M12, M21);
       }
       // Add the check for sig12 since zero length geodesics might yield m12 <
